@@ -17,14 +17,16 @@ import PV.Gen.C11Tables
            `needsParens slot kind` (which children the grammar cannot derive bare), `WF e`;
   * tables `kindPrec` / `slotLevel` / `modelParens` (model), `Gen.parenTable` (extracted from the real code).
 
-  1. `gen_parenTable_eq`      real unparser's parenthesisation decisions = the model's, all 1831 admissible pairs
+  1. `gen_parenTable_eq`      real unparser's parenthesisation decisions = the model's, all 1883 admissible pairs
   2. `unparse_shape`          for EVERY expression the model parenthesises exactly by `level > kindPrec`
      `unparse_slot_levels`    … and renders every child at the `slotLevel` of its slot
   3. `prec_table_ok`          wherever the grammar needs parentheses the model writes them — no exception
      `prec_table_exact`       … and the model's decision is exactly: needed, or one of five harmless families
      `dict_unpack_regression` the six dict-`**` pairs that were wrong before /repo dc8e40d
-  4. `parse_unparse_partial`  round trip for every expression of `InFragment` (operators, trailers, displays,
-                              literals, await / yield), `unparse_fixpoint`
+     `comp_target_regression` the fourteen comprehension-target pairs that were wrong before /repo's repair of
+                              `unparse_comp` (`[x for (a if b else c), (lambda: d) in y]`)
+  4. `parse_unparse_partial`  round trip for every expression of `InFragmentX` (everything but f-strings),
+                              `unparse_fixpoint`; `fx_target_eq_elem`: a comprehension target may be any operand
   5. `parse_unparse_fails`    the full statement is false for the code as it is; witnesses for the findings
 -/
 namespace PV.C11
@@ -36,7 +38,7 @@ open PV.Expr
     admissible (slot, child kind) pair, regenerated on every run) coincide with the model's. -/
 theorem gen_parenTable_eq : Gen.parenTable = parenTable := by decide +kernel
 
-example : parenTable.length = 1831 := by decide +kernel
+example : parenTable.length = 1883 := by decide +kernel
 
 /-! ## 2. the model is built from the table, for every expression -/
 
@@ -95,8 +97,15 @@ theorem unparse_slot_levels (p : Nat → Bool) :
         delim first ++ [op .dstar] ++ unparse p v (slotLevel .callDstarValue) ++ unparseKeywords p ks false) ∧
     (∀ t i ifs a gs, unparseComp p (.mk t i ifs a :: gs) =
         (if a then [.sp, kw .async, .sp, kw .for, .sp] else [.sp, kw .for, .sp]) ++
-          unparse p t (slotLevel .compTarget) ++ [.sp, kw .in, .sp] ++ unparse p i (slotLevel .compIter) ++
+          unparseTarget p t ++ [.sp, kw .in, .sp] ++ unparse p i (slotLevel .compIter) ++
           unparseIfs p ifs ++ unparseComp p gs) ∧
+    -- a comprehension target: a non-empty tuple is written bare (`modelParens .compTarget .tuple = false`), its
+    -- elements at the level of slot `compTargetElt`; every other target at the level of slot `compTarget`
+    (∀ x xs, unparseTarget p (.tuple (x :: xs)) =
+        unparseSeq p (x :: xs) (slotLevel .compTargetElt) true ++ (if xs.isEmpty then [op .comma] else [])) ∧
+    (∀ x xs first, unparseSeq p (x :: xs) (slotLevel .compTargetElt) first =
+        delim first ++ unparse p x (slotLevel .compTargetElt) ++ unparseSeq p xs (slotLevel .compTargetElt) false) ∧
+    (∀ t, (∀ x xs, t ≠ .tuple (x :: xs)) → unparseTarget p t = unparse p t (slotLevel .compTarget)) ∧
     (∀ c cs, unparseIfs p (c :: cs) = [.sp, kw .if, .sp] ++ unparse p c (slotLevel .compIf) ++ unparseIfs p cs) ∧
     (∀ e gs lvl, unparse p (.listComp e gs) lvl =
         [op .lsqb] ++ unparse p e (slotLevel .listCompElt) ++ unparseComp p gs ++ [op .rsqb]) ∧
@@ -107,7 +116,7 @@ theorem unparse_slot_levels (p : Nat → Bool) :
         [op .lpar, kw .yield, .sp] ++ unparse p v (slotLevel .yieldValue) ++ [op .rpar]) ∧
     (∀ v lvl, unparse p (.yieldFrom v) lvl =
         [op .lpar, kw .yield, .sp, kw .from, .sp] ++ unparse p v (slotLevel .yieldFromValue) ++ [op .rpar]) := by
-  refine ⟨?_, ?_, ?_, ?_, ?_, ?_, ?_, ?_, ?_, ?_, ?_, ?_, ?_, ?_, ?_, ?_, ?_, ?_, ?_, ?_, ?_, ?_, ?_⟩
+  refine ⟨?_, ?_, ?_, ?_, ?_, ?_, ?_, ?_, ?_, ?_, ?_, ?_, ?_, ?_, ?_, ?_, ?_, ?_, ?_, ?_, ?_, ?_, ?_, ?_, ?_, ?_⟩
   · intro o v vs first; cases first <;> simp [unparseBool, slotLevel]
   · intro o vs; simp [unparse, groupIf, slotLevel]
   · intro l o r; cases o <;> simp [unparse, groupIf, slotLevel]
@@ -125,7 +134,16 @@ theorem unparse_slot_levels (p : Nat → Bool) :
   · intro v is first; simp [unparseDictItems, slotLevel]
   · intro a v ks first; simp [unparseKeywords, slotLevel]
   · intro v ks first; simp [unparseKeywords, slotLevel]
-  · intro t i ifs a gs; cases a <;> simp [unparseComp, slotLevel]
+  · intro t i ifs a gs; rw [unparseComp_cons]; cases a <;> simp [slotLevel]
+  · intro x xs; cases xs <;> simp [unparseTarget, slotLevel]
+  · intro x xs first; simp [unparseSeq, slotLevel]
+  · intro t ht
+    cases t with
+    | tuple es =>
+      cases es with
+      | nil => simp [unparseTarget, slotLevel]
+      | cons x xs => exact absurd rfl (ht x xs)
+    | _ => simp [unparseTarget, slotLevel]
   · intro c cs; simp [unparseIfs, slotLevel]
   · intro e gs lvl; simp [unparse, slotLevel]
   · intro k v gs lvl; simp [unparse, slotLevel]
@@ -163,7 +181,7 @@ def tableExactB : Bool :=
 theorem tableOkB_true : tableOkB = true := by decide +kernel
 theorem tableExactB_true : tableExactB = true := by decide +kernel
 
-/-- **Soundness of the parenthesisation, all 1831 pairs, no exception**: for every child position `s` and
+/-- **Soundness of the parenthesisation, all 1883 pairs, no exception**: for every child position `s` and
     every kind of child `k` that can stand there, if the grammar cannot derive the child bare, the unparser
     parenthesises it. -/
 theorem prec_table_ok (s : Slot) (k : Kind) (ha : admissible s k = true) (hn : needsParens s k = true) :
@@ -191,6 +209,24 @@ theorem dict_unpack_regression : ∀ k ∈ dictUnpackLowKinds,
 example : needsParens (.binLeft .pow) (.unary .uSub) = true ∧ modelParens (.binLeft .pow) (.unary .uSub) = true := by
   decide
 
+/-- the kinds the grammar cannot derive bare where it reads the target of a comprehension clause (`ExpressionList`:
+    elements at `Expression` level) -/
+def compTargetLowKinds : List Kind :=
+  [.namedExpr, .lambda, .ifExp, .boolOp .and, .boolOp .or, .unary .not, .compare]
+
+/-- Regression for the former finding `[x for (a if b else c) in y]` → `[x for a if b else c in y]` (the parser does
+    not validate comprehension targets, and `unparse_comp` wrote them at tuple level; fixed in /repo by
+    `unparse_comp_target`): as the target of a comprehension clause and as an element of its bare tuple the grammar
+    needs parentheses around these seven kinds, and the unparser writes them; a bare tuple target stays bare. -/
+theorem comp_target_regression :
+    (∀ k ∈ compTargetLowKinds, ∀ s ∈ [Slot.compTarget, Slot.compTargetElt],
+      admissible s k = true ∧ needsParens s k = true ∧ modelParens s k = true) ∧
+    (admissible .compTarget .tuple = true ∧ needsParens .compTarget .tuple = false ∧
+      modelParens .compTarget .tuple = false) ∧
+    (admissible .compTargetElt .tuple = true ∧ needsParens .compTargetElt .tuple = true ∧
+      modelParens .compTargetElt .tuple = true) := by
+  decide
+
 /-! ## 4. the round trip -/
 
 /-- The property for the model, full strength: every tree the parser can produce is read back from the
@@ -206,13 +242,14 @@ def parse_unparse_full : Prop :=
     `await`, `yield` (also with a starred value), `yield from`, `and`/`or` chains, the four unary and thirteen binary
     operators, comparison chains, conditional expressions, **lambda** with every parameter kind (positional-only `/`,
     defaults, `*args`, keyword-only, `**kw`), the four **comprehension** forms with any number of `for` / `if` clauses,
-    `async` and bare-tuple / starred targets, and **named expressions** — nested arbitrarily, of any size — the
+    `async` and ANY target the parser reads there (it does not check that the target can be assigned to: a conditional,
+    lambda, `and` / `or` / `not`, comparison or named expression — in parentheses in the source —, a starred name, a
+    bare tuple of all these), and **named expressions** — nested arbitrarily, of any size — the
     reference parser reads the token sequence of the unparser model's output back as the same tree and consumes all
     of it.  (`p` is the printable-character table; it only influences the text of string tokens.)
     Side conditions of `InFragmentX` (`fx`, lean/PV/C11/Fragment.lean) beyond the grammar's shape: the checks the
     parser itself makes when it builds a lambda (no default-less positional parameter after a defaulted one, distinct
-    parameter names) and a call (distinct keyword names); comprehension targets are `Expression`-level operands
-    (what the parser reads there). -/
+    parameter names) and a call (distinct keyword names). -/
 theorem parse_unparse_partial (p : Nat → Bool) (e : Expr) (h : InFragmentX e) :
     ∃ n, ∀ fuel, n ≤ fuel → parseRef fuel (toks (display p e)) = some (eraseCtx e, []) := by
   have := (goodX p e h).good.rt 1 [] (Nat.le_refl _) (by omega) (Stop.nil _)
@@ -234,6 +271,29 @@ theorem parse_unparse_partial_at (p : Nat → Bool) (e : Expr) (h : InFragment e
 
 /-- the operator core lies in the extended fragment -/
 theorem inFragment_sub (e : Expr) (h : InFragment e) : InFragmentX e := inFrag_fx e h
+
+/-- **A comprehension target may be anything an element of a display may be** (an operand of the fragment, a starred
+    operand, a tuple of these): the fragment puts no restriction of its own on targets any more — before /repo's repair
+    of `unparse_comp`, conditionals, lambdas, `and` / `or` / `not`, comparisons and named expressions were excluded
+    there, alone and as elements of the bare tuple. -/
+theorem fx_target_eq_elem (e : Expr) : fx .target e = fx .elem e ∧ fx .targetElem e = fx .elem e := by
+  have hl : ∀ es : List Expr, fxList .targetElem es = fxList .elem es := by
+    intro es
+    induction es with
+    | nil => rfl
+    | cons x xs ih =>
+      have hx : fx .targetElem x = fx .elem x := by
+        cases x with
+        | yield v => cases v <;> simp [fx]
+        | _ => simp [fx, XPos.tupleElem] <;> rfl
+      simp [fxList, hx, ih]
+  constructor
+  · cases e with
+    | yield v => cases v <;> simp [fx]
+    | _ => simp [fx, XPos.tupleElem, hl] <;> rfl
+  · cases e with
+    | yield v => cases v <;> simp [fx]
+    | _ => simp [fx, XPos.tupleElem] <;> rfl
 
 /-- `-2 ** (-x) < (a if b else c) or not y['k'].g((1,), [], {z, b'\\x00'})` — in the operator core: unary/power
     interplay, a parenthesised conditional, a boolean chain, trailers, displays, literals -/
@@ -270,6 +330,35 @@ example : InFragmentX sampleExprX := by decide
 example : ¬ InFragment sampleExprX := by decide
 example : WF sampleExprX := by decide
 example : parseRef 200 (toks (display (fun _ => true) sampleExprX)) = some (sampleExprX, []) := by rfl
+
+/-- `{k: v async for (a if b else c), (lambda: d), *e, (f := 1), (g, h) in y for (not a) in z for (a < b or c), in w}`
+    — comprehension targets that are not assignment targets (the parser builds them all the same): a bare tuple of a
+    conditional, a lambda, a starred name, a named expression and a nested tuple; a `not`; a 1-tuple of an `or` of a
+    comparison.  In the fragment since /repo's repair of `unparse_comp` -/
+def sampleTargets : Expr :=
+  .dictComp (.name [107]) (.name [118])
+    [.mk (.tuple [.ifExp (.name [98]) (.name [97]) (.name [99]), .lambda [] [] none [] none (.name [100]),
+                  .starred (.name [101]), .namedExpr (.name [102]) (.const (.int 1)),
+                  .tuple [.name [103], .name [104]]]) (.name [121]) [] true,
+     .mk (.unaryOp .not (.name [97])) (.name [122]) [] false,
+     .mk (.tuple [.boolOp .or [.compare (.name [97]) [.lt] [.name [98]], .name [99]]]) (.name [119]) [] false]
+
+/-- the tokens of its rendering: every low-precedence target (element) in parentheses, the tuples bare -/
+def sampleTargetsToks : List Tok :=
+  [.op .lbrace, .name [107], .op .colon, .name [118], .kw .async, .kw .for,
+   .op .lpar, .name [97], .kw .if, .name [98], .kw .else, .name [99], .op .rpar, .op .comma,
+   .op .lpar, .kw .lambda, .op .colon, .name [100], .op .rpar, .op .comma,
+   .op .star, .name [101], .op .comma,
+   .op .lpar, .name [102], .op .walrus, .int 1, .op .rpar, .op .comma,
+   .op .lpar, .name [103], .op .comma, .name [104], .op .rpar, .kw .in, .name [121],
+   .kw .for, .op .lpar, .kw .not, .name [97], .op .rpar, .kw .in, .name [122],
+   .kw .for, .op .lpar, .name [97], .op .lt, .name [98], .kw .or, .name [99], .op .rpar, .op .comma, .kw .in, .name [119],
+   .op .rbrace]
+
+example : InFragmentX sampleTargets := by decide
+example : WF sampleTargets := by decide
+example : toks (display (fun _ => true) sampleTargets) = sampleTargetsToks := by decide
+example : parseRef 200 sampleTargetsToks = some (sampleTargets, []) := by rfl
 
 mutual
 theorem inFrag_wf_aux : (e : Expr) → inFrag e = true → ∀ pos, wf pos e = true
@@ -358,6 +447,27 @@ theorem dict_unpack_roundtrip (p : Nat → Bool) :
   refine ⟨?_, by decide, by rfl⟩
   simp [display, dictWitness, dictWitnessToks, unparse, unparseDictItems, unparseBool, toks, groupIf,
     delim, boolOpPrec, boolOpKw, Prec.TEST, Prec.OR, Prec.EXPR, Prec.BOR, op, kw]
+
+/-- `[x for (a if b else c), (lambda: d) in y]` — the former finding, now inside `InFragmentX` -/
+def compTargetWitness : Expr :=
+  .listComp (.name [120])
+    [.mk (.tuple [.ifExp (.name [98]) (.name [97]) (.name [99]), .lambda [] [] none [] none (.name [100])])
+       (.name [121]) [] false]
+
+/-- `[`, `x`, `for`, `(`, `a`, `if`, `b`, `else`, `c`, `)`, `,`, `(`, `lambda`, `:`, `d`, `)`, `in`, `y`, `]` -/
+def compTargetWitnessToks : List Tok :=
+  [.op .lsqb, .name [120], .kw .for, .op .lpar, .name [97], .kw .if, .name [98], .kw .else, .name [99], .op .rpar,
+   .op .comma, .op .lpar, .kw .lambda, .op .colon, .name [100], .op .rpar, .kw .in, .name [121], .op .rsqb]
+
+/-- Regression: the repaired unparser renders `[x for (a if b else c), (lambda: d) in y]` with the parentheses of
+    both target elements (it used to write `[x for a if b else c, lambda: d in y]`, which does not parse), the tree is
+    in the proved fragment (so `parse_unparse_partial` applies to it), and the tokens read back as the tree. -/
+theorem comp_target_roundtrip (p : Nat → Bool) :
+    toks (display p compTargetWitness) = compTargetWitnessToks ∧ InFragmentX compTargetWitness ∧
+      parseRef 64 compTargetWitnessToks = some (compTargetWitness, []) := by
+  refine ⟨?_, by decide, by rfl⟩
+  simp [display, compTargetWitness, compTargetWitnessToks, unparse, unparseComp, unparseSeq, unparseIfs,
+    unparsePosParams, unparseKwonly, toks, groupIf, delim, Prec.TEST, Prec.EXPR, Prec.BOR, op, kw]
 
 /-- Regression (text level, shared with C17): the constant `0.9999999999999999` (bits `3fefffffffffffff`,
     `1 - 2^-53`) used to be rendered `1.0` (`is_integer` compared with `EPSILON`; fixed in /repo by 5be0365);
